@@ -67,11 +67,19 @@ class TaskScheduler(object):
         :param tasks: task to wait for
         :return: ``None``
         """
-        while not task.is_computed():
-            self._execute(task)
-            if task.is_computed():
-                break
-            self._continue_with_batch()
+        try:
+            while not task.is_computed():
+                self._execute(task)
+                if task.is_computed():
+                    break
+                self._continue_with_batch()
+        finally:
+            if not self._tasks:
+                # The outermost wait is over, so nothing is being computed on this
+                # scheduler any more. Batches that are still scheduled can only belong
+                # to tasks that were abandoned (e.g. failed by a context while blocked);
+                # forget them so that they don't leak into the next computation.
+                self._batches.clear()
 
     def _execute(self, root_task):
         """Implements task execution loop.
